@@ -222,7 +222,10 @@ pub fn roa_addr_from(addr: u128, len: u8, fam_bits: u8, max_len: Option<u128>) -
     let full = if fam_bits == 32 { ((addr as u32).to_be_bytes()).to_vec() } else { addr.to_be_bytes().to_vec() };
     let nbytes = (len as usize).div_ceil(8);
     let unused = (nbytes * 8 - len as usize) as u8;
-    RoaAddr { bits: full[..nbytes].to_vec(), unused, max_len }
+    let mut bits = full[..nbytes].to_vec();
+    // DER: unused bits of the last octet are zero
+    if unused > 0 { let l = bits.len() - 1; bits[l] &= 0xffu8 << unused; }
+    RoaAddr { bits, unused, max_len }
 }
 
 pub fn roa_content(version: Option<u128>, asn: u128, v4: Option<&[RoaAddr]>, v6: Option<&[RoaAddr]>) -> Vec<u8> {
@@ -397,6 +400,7 @@ mod test {
         assert_eq!(r, seq(&[bitstring(1, &[10]), bitstring(0, &[10, 0, 0])]));
         let r = ip_range(0, 0xffff_ffff, 32);
         assert_eq!(r, seq(&[bitstring(0, &[]), bitstring(0, &[])]));
+        assert_eq!(ip_range(0, 1, 32), seq(&[bitstring(0, &[]), bitstring(1, &[0, 0, 0, 0])]));
         let r = ip_range(1, 2, 32);
         assert_eq!(r, seq(&[bitstring(0, &[0, 0, 0, 1]), bitstring(0, &[0, 0, 0, 2])]));
     }
